@@ -173,7 +173,11 @@ class Engine(
 
     def transfer(self, target: Relation, payload: Any | None = None) -> Select:
         # Docstring inherited.
-        return Select.apply_skip(super().transfer(target, payload))
+        # The base class returns the target itself (or a relation upstream of
+        # it) when no transfer is needed; only add a Select if the result is
+        # not already conformed, so a relation transferred to its own engine is
+        # returned as-is instead of being buried in a new subquery.
+        return self.conform(super().transfer(target, payload))
 
     def make_doomed_relation(
         self, columns: Set[ColumnTag], messages: Sequence[str], name: str = "0"
